@@ -17,6 +17,15 @@ GitHub surface implemented
 
 Each mutable fact carries the logical tick of its last change; each read by CI is stamped too, so an oracle can tell
 "CI had read this fact since it last changed" from "the change has not been delivered to CI yet".
+
+Fault injection (FaultPlan): the history can arm faults; an armed fault makes the k-th upcoming client call of a class
+(GitHub: refs / pulls / graphql / status / assignees / merge / gh-any; Batch: list / bstatus / submit / cancel /
+batch-any) raise instead of being served.  A fault is *fail-before-effect*: the request is not served, no ground truth
+changes and no "CI has read ..." stamp is taken (a 5xx / refused / timed-out request).  Exception types are the ones the
+real transports produce: gidgethub.HTTPException (GitHubBroken 502, BadRequest 403), asyncio.TimeoutError (aiohttp total
+timeout of the raw session handed to gidgethub), aiohttp.ServerDisconnectedError, aiohttp.ClientResponseError (named in
+github.py's except clauses); for the Batch client only NON-transient hailtop.httpx.ClientResponseError (404/403): the real
+BatchClient retries every transient error forever inside hailtop.aiocloud Session.request, so those never surface.
 """
 from __future__ import annotations
 
@@ -87,18 +96,119 @@ _ERR_CACHE = {}
 
 def http_error(gidgethub_mod, status, msg):
     """An instance of (a subclass of) the HTTPException class that ci.github's `except` clauses name."""
-    base = getattr(gidgethub_mod, 'BadRequest', None) if getattr(gidgethub_mod, '__verif_fake__', False) else None
+    name = 'GitHubBroken' if status >= 500 else 'BadRequest'      # gidgethub.sansio: 5xx -> GitHubBroken, 4xx -> BadRequest
+    base = getattr(gidgethub_mod, name, None) if getattr(gidgethub_mod, '__verif_fake__', False) else None
     if base is not None:
         return base(status, msg)
     base = gidgethub_mod.HTTPException
-    cls = _ERR_CACHE.get(base)
+    cls = _ERR_CACHE.get((base, name))
     if cls is None:
         def __init__(self, status_code, *args):
             Exception.__init__(self, *args)
             self.status_code = status_code
-        cls = type(base)('BadRequest', (base,), {'__init__': __init__})
-        _ERR_CACHE[base] = cls
+        cls = type(base)(name, (base,), {'__init__': __init__})
+        _ERR_CACHE[(base, name)] = cls
     return cls(status, msg)
+
+
+# ---------------------------------------------------------------------------------------------------------------------
+# fault injection
+
+GH_CLASSES = ('refs', 'pulls', 'graphql', 'status', 'assignees', 'merge')
+BATCH_CLASSES = ('list', 'bstatus', 'submit', 'cancel')
+GH_FAULT_KINDS = ('http502', 'http403', 'timeout', 'disconnect', 'client_response_error')
+BATCH_FAULT_KINDS = ('batch404', 'batch403')
+
+
+def _request_info(url):
+    import aiohttp
+    import multidict
+    import yarl
+    u = yarl.URL(url)
+    return aiohttp.RequestInfo(u, 'GET', multidict.CIMultiDictProxy(multidict.CIMultiDict()), u)
+
+
+def make_fault(gidgethub_mod, kind):
+    """The exception a real transport would raise for this kind of failure."""
+    import asyncio
+    import aiohttp
+    if kind == 'http502':
+        return http_error(gidgethub_mod, 502, 'Bad Gateway (injected)')
+    if kind == 'http403':
+        return http_error(gidgethub_mod, 403, 'API rate limit exceeded (injected)')
+    if kind == 'timeout':
+        return asyncio.TimeoutError('injected')
+    if kind == 'disconnect':
+        return aiohttp.ServerDisconnectedError('injected')
+    if kind == 'client_response_error':
+        return aiohttp.ClientResponseError(_request_info('https://api.github.com/injected'), (), status=502,
+                                           message='Bad Gateway (injected)')
+    if kind in ('batch404', 'batch403'):
+        import hailtop.httpx
+        status = int(kind[-3:])
+        return hailtop.httpx.ClientResponseError(_request_info('https://batch.hail/injected'), (), body='injected',
+                                                 status=status, message={404: 'Not Found', 403: 'Forbidden'}[status])
+    raise HarnessBug(f'unknown fault kind {kind!r}')
+
+
+class FaultPlan:
+    """Faults armed by the history.  A fault = dict(side 'gh'|'batch', cls (a call class or 'any'), skip (matching calls
+    still served before it fires), n (consecutive matching calls that fail once it fires), kind, ttl (entry points of
+    the service it stays armed for)).  Every matching call counts down every armed fault that matches it."""
+
+    def __init__(self, gidgethub_mod, on_fire=None):
+        self._gm = gidgethub_mod
+        self.armed = []
+        self.fired = []          # (side, cls, kind)
+        self.injected = []       # the exception objects handed out (identity = "this is an injected fault")
+        self.on_fire = on_fire
+
+    def arm(self, side, cls, skip, n, kind, ttl):
+        if side == 'gh':
+            ok = cls in GH_CLASSES + ('any',) and kind in GH_FAULT_KINDS
+        else:
+            ok = side == 'batch' and cls in BATCH_CLASSES + ('any',) and kind in BATCH_FAULT_KINDS
+        if not ok or skip < 0 or n < 1 or ttl < 1:
+            raise HarnessBug(f'malformed fault {(side, cls, skip, n, kind, ttl)!r}')
+        self.armed.append(dict(side=side, cls=cls, skip=skip, n=n, kind=kind, ttl=ttl))
+
+    def check(self, side, cls):
+        """Called by the fakes at the start of every client call, before any effect: raises if a fault fires."""
+        firing = None
+        for f in list(self.armed):
+            if f['side'] != side or f['cls'] not in ('any', cls):
+                continue
+            if f['skip'] > 0:
+                f['skip'] -= 1
+                continue
+            f['n'] -= 1
+            if f['n'] <= 0:
+                self.armed.remove(f)
+            if firing is None:
+                firing = f
+        if firing is None:
+            return
+        exc = make_fault(self._gm, firing['kind'])
+        self.injected.append(exc)
+        self.fired.append((side, cls, firing['kind']))
+        if self.on_fire is not None:
+            self.on_fire(side, cls, firing['kind'])
+        raise exc
+
+    def is_injected(self, exc):
+        seen = 0
+        while exc is not None and seen < 8:
+            if any(exc is e for e in self.injected):
+                return True
+            exc = exc.__cause__ or exc.__context__
+            seen += 1
+        return False
+
+    def end_entry_point(self):
+        for f in list(self.armed):
+            f['ttl'] -= 1
+            if f['ttl'] <= 0:
+                self.armed.remove(f)
 
 
 # ---------------------------------------------------------------------------------------------------------------------
@@ -112,8 +222,9 @@ PASSING = ('SUCCESS', 'NEUTRAL')
 
 class FakeGitHub:
     def __init__(self, gidgethub_mod, *, owner='hail-is', name='hail', branch='main', ci_context='ci-test',
-                 required=('lint', 'build'), ci_required=True, filler=0, dismiss_stale=False, monitor=None):
+                 required=('lint', 'build'), ci_required=True, filler=0, dismiss_stale=False, monitor=None, faults=None):
         self._gm = gidgethub_mod
+        self.faults = faults
         self.owner, self.name, self.branch = owner, name, branch
         self.repo = f'{owner}/{name}'
         self.ci_context = ci_context
@@ -141,17 +252,20 @@ class FakeGitHub:
         self.paged = False
         self.assignee_posts = 0
         self.ci_status_posts = []
+        self.ci_status_lost = {}  # sha -> (state, tick) of CI's most recent status post for it, if that post was lost to a fault
 
     def _tick(self):
         self.tick += 1
         return self.tick
 
-    def _call(self):
+    def _call(self, cls=None):
         self.n_calls += 1
         if self.call_budget is not None:
             self.call_budget -= 1
             if self.call_budget < 0:
                 raise UpdateLivelock('GitHub call budget of one update exhausted')
+        if cls is not None and self.faults is not None:
+            self.faults.check('gh', cls)      # fail-before-effect: nothing below has happened when this raises
 
     # -- ground-truth mutations (the harness's side) ---------------------------------------------------------------
     def open_pr(self, *, head=None, approved=False, labels=(), author='ehigham'):
@@ -201,7 +315,7 @@ class FakeGitHub:
         assert kind in ('status', 'check')
         assert state in (_STATUS_STATES if kind == 'status' else _CHECK_CONCLUSIONS), state
         t = self._tick()
-        self.statuses.setdefault(sha, {})[context] = dict(kind=kind, state=state, by=by)
+        self.statuses.setdefault(sha, {})[context] = dict(kind=kind, state=state, by=by, t=t)
         if by != 'ci':
             self.status_t[sha] = t
 
@@ -251,17 +365,17 @@ class FakeGitHub:
 
     # -- the client surface ---------------------------------------------------------------------------------------------
     async def getitem(self, url, *a, **k):
-        self._call()
         if url == f'/repos/{self.repo}/git/refs/heads/{self.branch}':
+            self._call('refs')
             self.refs_read = self._tick()
             self.merges_since_refs_read = 0
             return {'ref': f'refs/heads/{self.branch}', 'object': {'sha': self.target_sha, 'type': 'commit'}}
         raise HarnessBug(f'fake GitHub: unexpected getitem {url!r}')
 
     async def getiter(self, url, *a, **k):
-        self._call()
         if url != f'/repos/{self.repo}/pulls?state=open&base={self.branch}':
             raise HarnessBug(f'fake GitHub: unexpected getiter {url!r}')
+        self._call('pulls')
         self.pulls_read = self._tick()
         for n in self.open_prs():
             yield self._pr_json(self.prs[n])
@@ -271,8 +385,8 @@ class FakeGitHub:
     _repo_re = re.compile(r'owner: "([^"]*)",\s*name: "([^"]*)"')
 
     async def post(self, url, *a, data=None, **k):
-        self._call()
         if url == '/graphql':
+            self._call('graphql')
             q = data['query']
             m, c, r = self._num_re.search(q), self._after_re.search(q), self._repo_re.search(q)
             if not (m and c and r) or (r.group(1), r.group(2)) != (self.owner, self.name):
@@ -286,13 +400,15 @@ class FakeGitHub:
             pr = self.prs[n]
             first, after = int(c.group(1)), int(c.group(2) or 0)
             nodes = self.contexts_for(pr['head'])
-            if after == 0:
+            more = bool(nodes) and after + first < len(nodes)
+            if not more:
+                # CI "has read" the PR's review decision and rollup only once the LAST page was served: PR._update_github
+                # stores nothing before its paging loop ends, so a fault between two pages leaves its view untouched
                 self.gql_read[n] = self._tick()
             if not nodes:
                 rollup = None
             else:
                 page = nodes[after:after + first]
-                more = after + first < len(nodes)
                 if more:
                     self.paged = True
                 rollup = {'contexts': {'nodes': page, 'pageInfo': {'endCursor': str(after + len(page)), 'hasNextPage': more}}}
@@ -304,17 +420,25 @@ class FakeGitHub:
             sha = m.group(1)
             if set(data) - {'state', 'target_url', 'description', 'context'} or data.get('state') not in ('success', 'pending', 'failure', 'error'):
                 raise HarnessBug(f'fake GitHub: bad status payload {data!r}')
+            try:
+                self._call('status')
+            except Exception:      # noqa: BLE001  (injected fault: GitHub keeps showing the previous state of CI's context)
+                if data['context'] == self.ci_context:
+                    self.ci_status_lost[sha] = (data['state'].upper(), self._tick())
+                raise
+            if data['context'] == self.ci_context:
+                self.ci_status_lost.pop(sha, None)
             self.report_status(sha, data['context'], 'status', data['state'].upper(), by='ci')
             self.ci_status_posts.append((sha, data['context'], data['state']))
             return {'state': data['state'], 'context': data['context']}
         m = re.fullmatch(rf'/repos/{re.escape(self.repo)}/issues/(\d+)/assignees', url)
         if m:
+            self._call('assignees')
             self.assignee_posts += 1
             return {}
         raise HarnessBug(f'fake GitHub: unexpected post {url!r}')
 
     async def put(self, url, *a, data=None, **k):
-        self._call()
         m = re.fullmatch(rf'/repos/{re.escape(self.repo)}/pulls/(\d+)/merge', url)
         if not m:
             raise HarnessBug(f'fake GitHub: unexpected put {url!r}')
@@ -324,7 +448,12 @@ class FakeGitHub:
             raise self._err(422, 'Invalid merge_method')
         verdict = [None]
         if self.monitor is not None:
-            self.monitor(n, dict(data), verdict)
+            self.monitor(n, dict(data), verdict)      # CI's decision to merge is judged whether or not the request is served
+        try:
+            self._call('merge')
+        except Exception as e:      # noqa: BLE001  (an injected fault: the merge is NOT performed)
+            verdict[0] = f'fault:{type(e).__name__}'
+            raise
         pr = self.prs.get(n)
         if pr is None:
             verdict[0] = 404
@@ -359,9 +488,11 @@ class FakeGitHub:
 class FakeBatchService:
     """Ground truth of the Batch service: records of submitted batches."""
 
-    def __init__(self, batch_base_cls, clock):
+    def __init__(self, batch_base_cls, clock, faults=None):
         self.records = []     # dict(id, attributes, state, complete, done_t, cancelled_by_ci)
         self._clock = clock   # callable -> tick
+        self.faults = faults
+        self.n_calls = 0
         base = batch_base_cls
 
         class FakeBatch(base):          # isinstance(x, hailtop.batch_client.aioclient.Batch) must hold
@@ -376,25 +507,35 @@ class FakeBatchService:
             async def submit(self, *a, **k):
                 if self._rec is not None:
                     raise HarnessBug('batch submitted twice')
+                self._svc._call('submit')
                 self._rec = self._svc._new_record(self.attributes)
                 self._id = self._rec['id']
                 return self
 
             async def status(self):
+                self._svc._call('bstatus')
                 r = self._rec
                 return {'id': r['id'], 'state': r['state'], 'complete': r['complete'], 'attributes': dict(r['attributes']),
                         'n_jobs': 1, 'n_completed': int(r['complete'])}
 
             async def cancel(self):
+                self._svc._call('cancel')
                 if self._rec is not None:
                     self._svc.finish(self._rec['id'], 'cancelled', by_ci=True)
 
             async def delete(self):
+                self._svc._call('cancel')
                 if self._rec is not None:
                     self._svc.finish(self._rec['id'], 'cancelled', by_ci=True)
                     self._rec['deleted'] = True
 
         self.FakeBatch = FakeBatch
+
+    def _call(self, cls):
+        """One request of the real BatchClient (after its internal retries); fail-before-effect like the GitHub fake."""
+        self.n_calls += 1
+        if self.faults is not None:
+            self.faults.check('batch', cls)
 
     def _new_record(self, attributes):
         rec = dict(id=len(self.records) + 1, attributes={k: str(v) for k, v in attributes.items()}, state='running',
@@ -456,6 +597,7 @@ class FakeBatchClient:
 
     async def list_batches(self, q=None, last_batch_id=None, limit=2 ** 64, version=None):
         self.queries.append(q)
+        self._svc._call('list')
         for r in self._svc.match(q or ''):
             yield self._svc.FakeBatch(self._svc, r)       # a fresh object per listing, as the real client does
 
